@@ -1421,6 +1421,126 @@ func (x *Exec) checkPost(st *State, fr *Frame, res []Val) {
 		same := x.worldEq(st.worlds[0], fr.entryWorlds[0])
 		x.emit(st, fr, "F3", "world_unchanged", same, fr.block.Instrs[fr.pc])
 	}
+	x.checkFrame(st, fr, c)
+}
+
+// checkFrame (F5): a function whose contract declares a frame (`modifies …` or `reads_only`) is
+// checked against it at every return: each heap array agrees with its entry value on every object
+// that existed at entry (rid <= 0) other than the objects the frame names, and the world is the
+// entry world unless the frame names W. Callers rely on exactly this when they apply the contract.
+func (x *Exec) checkFrame(st *State, fr *Frame, c *Contract) {
+	m, hasMod := c.Flags["modifies"]
+	_, ro := c.Flags["reads_only"]
+	if (!hasMod && !ro) || x.inTwin {
+		return
+	}
+	if _, t := c.Flags["trusted"]; t {
+		return
+	}
+	at := fr.block.Instrs[fr.pc]
+	allowed := map[string][]Term{}
+	worldMay := false
+	param := func(name string) (Val, bool) {
+		for i, p := range fr.fn.Params {
+			if p.Name() == name && i < len(fr.params) {
+				return fr.params[i], true
+			}
+		}
+		return Val{}, false
+	}
+	for _, region := range strings.Fields(strings.ReplaceAll(m, ",", " ")) {
+		switch {
+		case region == "W" || strings.HasPrefix(region, "W."):
+			worldMay = true
+		case strings.HasPrefix(region, "*"):
+			v, ok := param(region[1:])
+			if !ok {
+				// "*p.F": evaluated in the entry state
+				if e, err := ParseExpr(region[1:]); err == nil {
+					sc := x.scopeFor(st, fr)
+					if ev, err := x.evalSpec(st, fr, EOld{X: e}, sc); err == nil && ev.T.Sort == SRef && ev.Typ != nil {
+						v, ok = ev, true
+					}
+				}
+			}
+			if !ok {
+				x.unsupported("modifies %s of %s: cannot resolve the region", region, x.TopName)
+				continue
+			}
+			ptr, ok := v.Typ.Underlying().(*types.Pointer)
+			if !ok {
+				x.unsupported("modifies %s of %s: not a pointer", region, x.TopName)
+				continue
+			}
+			if si := x.S.StructInfo(ptr.Elem()); si != nil {
+				for i := range si.fields {
+					n, _ := x.fieldArrName(si, i)
+					allowed[n] = append(allowed[n], v.T)
+				}
+			} else {
+				n, _ := cellArrName(x.S.SortOf(ptr.Elem()))
+				allowed[n] = append(allowed[n], v.T)
+			}
+		case strings.HasPrefix(region, "elems(") && strings.HasSuffix(region, ")"):
+			v, ok := param(region[6 : len(region)-1])
+			if !ok || v.T.Sort != SSlice {
+				x.unsupported("modifies %s of %s: no such slice parameter", region, x.TopName)
+				continue
+			}
+			if sl, ok := v.Typ.Underlying().(*types.Slice); ok {
+				n, _ := elemArrName(x.S.SortOf(sl.Elem()))
+				allowed[n] = append(allowed[n], App(SRef, "s.base", v.T))
+			}
+		}
+	}
+	if _, total := st.heap["!epoch"]; total {
+		x.emit(st, fr, "F5", "frame.heap", TFalse, at)
+	}
+	names := map[string]bool{}
+	for n := range st.heap {
+		if strings.HasPrefix(n, "!ep:") {
+			names[n[4:]] = true
+		} else if !strings.HasPrefix(n, "!") {
+			names[n] = true
+		}
+	}
+	x.D.DeclareFun("rid", []string{SRef}, SInt)
+	for _, n := range sortedKeys(names) {
+		sort := ""
+		if t, ok := st.heap[n]; ok {
+			sort = t.Sort
+		} else if t, ok := fr.entryHeap[n]; ok {
+			sort = t.Sort
+		}
+		if sort == "" {
+			// havocked by a loop and never read again: its sort is unknown here, and so is its content
+			x.emit(st, fr, "F5", "frame."+mangle(n), TFalse, at)
+			continue
+		}
+		final := heapArrIn(x, st.heap, n, sort)
+		entry := heapArrIn(x, fr.entryHeap, n, sort)
+		if final.S == entry.S {
+			continue
+		}
+		k, _ := splitArraySort(sort)
+		if k != SRef {
+			x.emit(st, fr, "F5", "frame."+mangle(n), Eq(final, entry), at)
+			continue
+		}
+		conds := []string{"(<= (rid r) 0)"}
+		for _, a := range allowed[n] {
+			conds = append(conds, "(not (= r "+a.S+"))")
+		}
+		goal := Term{fmt.Sprintf("(forall ((r Ref)) (=> (and %s) (= (select %s r) (select %s r))))", strings.Join(conds, " "), final.S, entry.S), SBool}
+		x.emit(st, fr, "F5", "frame."+mangle(n), goal, at)
+	}
+	if !worldMay {
+		for i := range fr.entryWorlds {
+			if i < len(st.worlds) {
+				x.emit(st, fr, "F5", fmt.Sprintf("frame.world%d", i), x.worldEq(st.worlds[i], fr.entryWorlds[i]), at)
+			}
+		}
+	}
 }
 
 func (x *Exec) worldEq(a, b WorldState) Term {
@@ -1528,9 +1648,28 @@ func (x *Exec) calleeFrameArrays(cc *ssa.CallCommon) ([]string, bool) {
 			return nil, false // world regions etc.: not a pure heap frame
 		}
 		var pt types.Type
+		path := strings.Split(pname, ".")
 		for _, p := range f.Params {
-			if p.Name() == pname {
+			if p.Name() == path[0] {
 				pt = p.Type()
+			}
+		}
+		for _, fld := range path[1:] { // "*p.F.G": walk the fields
+			if pt == nil {
+				break
+			}
+			t := pt
+			if ptr, ok := t.Underlying().(*types.Pointer); ok {
+				t = ptr.Elem()
+			}
+			st, ok := t.Underlying().(*types.Struct)
+			pt = nil
+			if ok {
+				for i := 0; i < st.NumFields(); i++ {
+					if st.Field(i).Name() == fld {
+						pt = st.Field(i).Type()
+					}
+				}
 			}
 		}
 		if pt == nil {
